@@ -53,6 +53,37 @@ def T(I, v):
     return I.term(v)
 
 
+# Uninterpreted calendar symbols with per-application definitional axioms (no quantifiers): equal ordinals get
+# equal projections by congruence, which the solvers cannot derive from the closed forms alone.
+ORD = z3.Function('ORD', z3.IntSort(), z3.IntSort(), z3.IntSort(), z3.IntSort())
+YOF = z3.Function('YOF', z3.IntSort(), z3.IntSort())
+MOF = z3.Function('MOF', z3.IntSort(), z3.IntSort())
+DOF = z3.Function('DOF', z3.IntSort(), z3.IntSort())
+
+
+def ord_term(I, ty, tm, td):
+    """ordinal of (y, m, d) as ORD(y,m,d) with its defining instance axioms"""
+    t = ORD(ty, tm, td)
+    key = ('ORD', t.get_id())
+    if key not in I.p.ghost:
+        I.p.ghost[key] = True
+        I.p.assume(z3.And(t == t_ordinal(ty, tm, td),
+                          z3.Implies(t_valid_date(ty, tm, td),
+                                     z3.And(YOF(t) == ty, MOF(t) == tm, DOF(t) == td, t >= 1, t <= MAXORD))))
+    return t
+
+
+def proj_terms(I, to):
+    """(Y, M, D) of an ordinal term (valid for 1 <= o <= MAXORD)"""
+    key = ('PROJ', to.get_id())
+    if key not in I.p.ghost:
+        I.p.ghost[key] = True
+        y, m, d = YOF(to), MOF(to), DOF(to)
+        o2 = ord_term(I, y, m, d)
+        I.p.assume(z3.Implies(z3.And(to >= 1, to <= MAXORD), z3.And(t_valid_date(y, m, d), o2 == to)))
+    return YOF(to), MOF(to), DOF(to)
+
+
 def is_conc(*vs):
     return all(isinstance(v, int) and not isinstance(v, bool) for v in vs)
 
@@ -77,7 +108,7 @@ def make_datetime(I, y, mo, d, h=0, mi=0, s=0, us=0, is_date=False):
                 tus >= 0, tus <= 999999)
     if not I.branch(ok):
         raise PyExc('ValueError', 'datetime out of range')
-    ordv = Sym(INT, t_ordinal(ty, tm, td))
+    ordv = Sym(INT, ord_term(I, ty, tm, td))
     sec = I.binop(ast.Add, I.binop(ast.Add, I.binop(ast.Mult, h, 3600), I.binop(ast.Mult, mi, 60)), s)
     return SDateTime(ordv, sec, (y, mo, d), is_date)
 
@@ -88,7 +119,7 @@ def fresh_datetime(I, hint, lo_year=1, hi_year=9999):
     d = I.fresh(INT, hint + '_d')
     sec = I.fresh(INT, hint + '_sec')
     I.p.assume(z3.And(t_valid_date(y.t, m.t, d.t), y.t >= lo_year, y.t <= hi_year, sec.t >= 0, sec.t < 86400))
-    return SDateTime(Sym(INT, t_ordinal(y.t, m.t, d.t)), sec, (y, m, d))
+    return SDateTime(Sym(INT, ord_term(I, y.t, m.t, d.t)), sec, (y, m, d))
 
 
 def ymd(I, dt):
@@ -98,17 +129,8 @@ def ymd(I, dt):
         x = _dt.date.fromordinal(dt.ord)
         dt._ymd = (x.year, x.month, x.day)
         return dt._ymd
-    key = ('ymd', T(I, dt.ord).get_id())
-    if key in I.p.ghost:
-        dt._ymd = I.p.ghost[key]
-        return dt._ymd
-    y = I.fresh(INT, 'y')
-    m = I.fresh(INT, 'm')
-    d = I.fresh(INT, 'd')
-    # definitional: every ordinal in range has exactly one valid (y, m, d)
-    I.p.assume(z3.And(t_valid_date(y.t, m.t, d.t), t_ordinal(y.t, m.t, d.t) == T(I, dt.ord)))
-    dt._ymd = (y, m, d)
-    I.p.ghost[key] = dt._ymd
+    ty, tm, td = proj_terms(I, T(I, dt.ord))
+    dt._ymd = (Sym(INT, ty), Sym(INT, tm), Sym(INT, td))
     return dt._ymd
 
 
@@ -313,7 +335,7 @@ def call_method(I, recv, name, args, kwargs):
             if not I.branch(z3.And(T(I, thursday.ord) >= 1, T(I, thursday.ord) <= MAXORD)):
                 raise Unsupported('isocalendar at the edge of the calendar')
             iy = ymd(I, thursday)[0]
-            jan1 = Sym(INT, t_ordinal(T(I, iy), z3.IntVal(1), z3.IntVal(1)))
+            jan1 = Sym(INT, ord_term(I, T(I, iy), z3.IntVal(1), z3.IntVal(1)))
             week = simp_int(I.binop(ast.Add, I.binop(ast.FloorDiv, I.binop(ast.Sub, thursday.ord, jan1), 7), 1))
             return IsoCalTuple((iy, week, I.binop(ast.Add, wd, 1)))
         if name == 'replace':
@@ -327,7 +349,7 @@ def call_method(I, recv, name, args, kwargs):
             return make_datetime(I, f['year'], f['month'], f['day'], f['hour'], f['minute'], f['second'], 0, recv.is_date)
         if name == 'timetuple':
             y, m, d = ymd(I, recv)
-            jan1 = Sym(INT, t_ordinal(T(I, y), z3.IntVal(1), z3.IntVal(1)))
+            jan1 = Sym(INT, ord_term(I, T(I, y), z3.IntVal(1), z3.IntVal(1)))
             return TimeTuple(simp_int(I.binop(ast.Add, I.binop(ast.Sub, recv.ord, jan1), 1)))
         if name in ('strftime', 'isoformat', 'timestamp', 'astimezone', 'utcoffset'):
             raise Unsupported('datetime.' + name)
@@ -386,7 +408,7 @@ def _calendar_attr(name):
                 raise PyExc('IllegalMonthError', 'bad month')
             if not I.branch(z3.And(ty >= 1, ty <= 9999)):
                 raise PyExc('ValueError', 'year out of range')
-            first = SDateTime(Sym(INT, t_ordinal(ty, tm, z3.IntVal(1))), 0)
+            first = SDateTime(Sym(INT, ord_term(I, ty, tm, z3.IntVal(1))), 0)
             return (weekday_val(I, first), Sym(INT, t_days_in_month(ty, tm)))
         return Builtin('monthrange', f)
     if name == 'isleap':
